@@ -588,12 +588,17 @@ def hard_id_spec(rng, mode, classes, max_n=5, max_m=5):
     spec = gen_base_spec(rng, classes, max_n=max_n, max_m=max_m, min_n=2, min_m=2)
 
     def harden(ids, prefix):
+        # distinct by construction: distinct pool entries, one fixed decoration per list (prefix or
+        # suffix), and a plain id that cannot collide with a decorated hard one
         pool = list(HARD_IDS)
         rng.shuffle(pool)
-        out = [prefix + x if rng.random() < 0.5 else x + prefix for x in pool[:len(ids)]]
-        # keep one plain id now and then
+        if rng.random() < 0.5:
+            out = [prefix + x for x in pool[:len(ids)]]
+        else:
+            out = [x + prefix for x in pool[:len(ids)]]
         if len(out) > 2 and rng.random() < 0.5:
-            out[rng.randrange(len(out))] = ids[0]
+            out[rng.randrange(len(out))] = prefix + "_plain"
+        assert len(set(out)) == len(out) and all(out), out
         return out
     if mode in ("obs", "both"):
         spec["obs"] = harden(spec["obs"], "O")
@@ -612,7 +617,14 @@ def written_json_case(ctx, spec, route, with_exit=False, tags=()):
     case = {"fmt": "json", "spec": spec, "route": route, "muts": []}
     ctx.case({"fmt": "json", "spec": core.spec_obs(spec), "route": route}, nontrivial=True)
     try:
-        text = written_json(spec, route)
+        t = core.build(spec, route)
+    except Exception as e:
+        # the table itself cannot be constructed: a generator defect, not a file the library wrote
+        ctx.count("generator:unbuildable-spec:%s" % type(e).__name__)
+        ctx.notes.append("skipped unbuildable spec (generator defect): obs=%r samp=%r" % (spec["obs"], spec["samp"]))
+        return
+    try:
+        text = t.to_json("c15-harness")
     except Exception as e:
         ctx.count("json:written->writer-raised")
         ctx.fail(case, "written_valid", tuple(tags) + ("json", "writer-raised:%s" % type(e).__name__))
@@ -633,7 +645,15 @@ def written_h5_case(ctx, spec, route, compress, base_path, with_exit=False, tags
     case = {"fmt": "hdf5", "spec": spec, "route": route, "muts": [], "compress": compress}
     ctx.case({"fmt": "hdf5", "spec": core.spec_obs(spec), "route": route, "c": int(compress)}, nontrivial=True)
     try:
-        write_h5(spec, route, base_path, compress=compress)
+        t = core.build(spec, route)
+    except Exception as e:
+        ctx.count("generator:unbuildable-spec:%s" % type(e).__name__)
+        ctx.notes.append("skipped unbuildable spec (generator defect): obs=%r samp=%r" % (spec["obs"], spec["samp"]))
+        return
+    try:
+        import h5py
+        with h5py.File(base_path, "w") as f:
+            t.to_hdf5(f, "c15-harness", compress=compress)
         tree, _ = observe_h5(base_path)
     except Exception as e:
         ctx.count("hdf5:written->writer-raised")
